@@ -1,5 +1,8 @@
 """C01 — every 1-D quadrature rule is exact on its polynomial class, for every size.
 
+Genuine defects re-derived on every run (listed in known_findings.jsonl): FejerFirst(3) / FejerSecond(3) at degree 2
+(Coq: fejer1_exact_refuted, fejer2_exact_refuted; fixes proven exact: fejer1_fixed_exact, fejer2_fixed_exact).
+
 gen:    scalar leaves of src/grid/onedgrid.py are re-translated on every run (props/c01_translate.py on top of
         vlib/py2coq_real, fail closed): _g2, _derg2, _g3, _derg3, _gstrip, _dergstrip (masked branches), the
         points/weights formulas of the seven variable-substitution constructors as functions of the real index
@@ -101,6 +104,13 @@ def gen(ctx: Ctx):
     for c, inf in info.items():
         if tuple(inf["domain"]) != DOMAINS[c]:
             raise P.Unsupported(f"{c}: declared domain {inf['domain']} differs from the modelled {DOMAINS[c]}")
+    # anchored but not modelled: the domain containment check of OneDGrid.__init__ (recorded; the property is checked on the objects)
+    bsrc = (SRC / "basegrid.py").read_text()
+    for c in ast.parse(bsrc).body:
+        if isinstance(c, ast.ClassDef) and c.name == "OneDGrid":
+            u = T.unit(bsrc, T._init_of(c), "OneDGrid.__init__", kind="observed on the constructed objects (domain, node range)")
+            u["file"] = "src/grid/basegrid.py"
+            units.append(u)
     ctx.gen("C01_gen.v", "\n".join(out) + "\n", units)
     return info
 
@@ -257,7 +267,7 @@ def dyadic(rng, lo, hi, bits=6):
 def sizes(ctx, odd_only=False, lo=2):
     ns = list(range(lo, 13))
     if not ctx.quick:
-        ns += [13, 16, 17, 24, 25, 33, 40, 41, 59, 60]
+        ns += [13, 16, 17, 25, 41, 60]
     if odd_only:
         ns = sorted({n for n in ns if n % 2 == 1} | ({1} if lo <= 1 else set()))
     return ns
@@ -452,7 +462,7 @@ def run(ctx: Ctx):
                 case(goal_close(f"pts_GaussChebyshevType2 {a} {n} {k}", g2.points[k]), "ev; fin", rule="GaussChebyshevType2", n=n, k=k, what="points", args=str(n))
                 case(goal_close(f"wts_GaussChebyshevType2 {a} {b} {n} {k}", g2.weights[k]), "ev; fin", rule="GaussChebyshevType2", n=n, k=k, what="weights", args=str(n))
                 ctx.case(("tie", "GaussChebyshevType2", n, k), traces=2)
-    alphas = [0.0, 0.5, -0.75] + [dyadic(rng, -0.9, 6.0, 3) for _ in range(1 if ctx.quick else 3)]
+    alphas = [0.0, 0.5, -0.75] + [dyadic(rng, -0.9, 6.0, 3) for _ in range(1 if ctx.quick else 2)]
     for ai, al in enumerate(alphas):
         for n in [x for x in gl_sizes if x <= 12 or x in (16, 25)]:
             if ctx.quick and ai in (1, 2) and n not in (2, 5, 8):
@@ -497,7 +507,7 @@ def run(ctx: Ctx):
             mhalf = (n - 1) // 2
             hmax = min(1.0, 2.5 / max(mhalf, 1))
             hs = [dyadic(rng, hmax / 8, hmax, 6)]
-            if float(dflt) * mhalf <= 2.5:
+            if float(dflt) * mhalf <= 2.5 and n <= 12:
                 hs.append(float(dflt))
             for h in hs:
                 g = build(cls, n, h)
@@ -641,10 +651,25 @@ def run(ctx: Ctx):
 
     mark('trefethen')
     # ================================================================== model vs implementation inside Coq
-    nshard = 16 if ctx.quick else 32
-    order = sorted(range(len(cases)), key=lambda i: (i % nshard, i))  # spread the heavy rules over all shards
-    bad_p = ctx.coq_tactic_cases("C01_cases", header(defs), [cases[i] for i in order], shard=max(20, math.ceil(len(cases) / nshard)), timeout=1500)
-    bad = sorted(order[j] for j in bad_p)
+    # two groups (cases that need the literal library arrays carry the big header), interleaved shards, and a second
+    # pass over the failures in small shards so that a shard that timed out on a loaded machine is not a disagreement
+    hdr_plain, hdr_full = header([]), header(defs)
+    need = [any(nm in g for nm in ("lx_", "lw_", "ux_", "uw_", "gx_", "gw_")) for g, _ in cases]
+    bad = []
+    for gname, hdr, idxs in (("C01_cases", hdr_plain, [i for i in range(len(cases)) if not need[i]]),
+                             ("C01_cases_lib", hdr_full, [i for i in range(len(cases)) if need[i]])):
+        if not idxs:
+            continue
+        nshard = max(1, min(64, math.ceil(len(idxs) / 220)))
+        order = sorted(range(len(idxs)), key=lambda j: (j % nshard, j))  # spread the heavy rules over all shards
+        first = ctx.coq_tactic_cases(gname, hdr, [cases[idxs[j]] for j in order], shard=math.ceil(len(idxs) / nshard), timeout=900)
+        fail1 = [idxs[order[j]] for j in first]
+        if fail1:
+            second = ctx.coq_tactic_cases(gname + "_retry", hdr, [cases[i] for i in fail1], shard=25, timeout=900)
+            bad += [fail1[j] for j in second]
+            ctx.cov.setdefault("retried_cases", 0)
+            ctx.cov["retried_cases"] += len(fail1)
+    bad.sort()
     ctx.cov["interval_cases"] = len(cases)
     mark('interval')
     ctx.cov['stage_seconds'] = tm
@@ -669,7 +694,7 @@ def run(ctx: Ctx):
     ctx.sample({"rule": "FejerSecond", "n": 3, "sum w x^2": float((build(og.FejerSecond, 3).weights * build(og.FejerSecond, 3).points ** 2).sum()), "exact": 2 / 3})
     ctx.cov["rule"] = (
         "tie: every node and every weight of every rule class at every size n = 2..12 (odd sizes for the odd-only rules; thorough adds "
-        "13,16,17,24,25,33,40,41,59,60) is enclosed by `interval` within 1e-9(1+|y|) of the Coq model value; extra parameters "
+        "13,16,17,25,41,60) is enclosed by `interval` within 1e-9(1+|y|) of the Coq model value; extra parameters "
         "(alpha, delta, h, rho) are random dyadics plus the defaults, d in {1,5,9}; library arrays (leggauss, roots_chebyu, roots_genlaguerre) "
         "are passed to the model as exact literals; Trefethen wrappers by exact float equality of the composition + leaf enclosures at the "
         "arguments used; distinct = (rule, parameters, n, k, points|weights).  search: mpmath (50 digits) moments of the implementation's "
